@@ -494,6 +494,8 @@ def parse_res(txt):
                 r['walk'] = 'PANIC'
             elif name == 'subskipped':
                 r['walk']['sub'] = None
+            elif name == 'subx':
+                r['walk']['subx'] = int(vals.strip() or 0)
             elif name in ('sub', 'single'):
                 r['walk'][name] = [int(v) for v in vals.split()]
             else:
